@@ -1124,3 +1124,137 @@ Proof.
   intros H Hw. destruct k as [d|kn rs d| |z]; try discriminate; cbn [tb_step]; unfold write_slice, read_from;
     destruct (c_engine_on c); cbn [negb]; try reflexivity; destruct H as [H|H]; try discriminate; rewrite H; reflexivity.
 Qed.
+
+
+(* ---------- no buffer ever holds more than its own Limit (any calls, any ctl limit) ---------- *)
+Lemma bb_write_len_le o b d : bb_len b <= bo_limit o -> bb_len (fst (fst (bb_write o b d))) <= bo_limit o.
+Proof.
+  intros H. unfold bb_write. destruct (blen d =? 0); [exact H|].
+  destruct (bb_len b >? bo_limit o - blen d) eqn:E; [exact H|].
+  destruct (bb_len b + blen d >? bo_mem o); [destruct (bb_file b)|]; cbn [fst bb_len]; lia.
+Qed.
+
+Lemma bb_copy_loop_len_le o rs size fuel : forall b src left written,
+  bb_len b <= bo_limit o -> bb_len (fst (fst (bb_copy_loop fuel o b src rs size left written))) <= bo_limit o.
+Proof.
+  induction fuel as [|fuel IH]; intros b src left written H; cbn [bb_copy_loop]; [exact H|].
+  destruct (left <=? 0); [exact H|].
+  set (want := if Nat.eqb rs 0 then _ else _).
+  destruct (firstn want src) as [|x p] eqn:Ep; [exact H|]. rewrite <- Ep.
+  pose proof (bb_write_len_le o b (firstn want src) H) as Hw.
+  destruct (bb_write o b (firstn want src)) as [[b' n] err]. cbn [fst] in Hw.
+  destruct err; [exact Hw|]. apply IH. exact Hw.
+Qed.
+
+Lemma step_len_le c s k :
+  bb_len (s_buf s) <= bo_limit (c_opt c) -> bb_len (s_buf (fst (tb_step c s k))) <= bo_limit (c_opt c).
+Proof.
+  intros H.
+  assert (HP : forall x, bb_len (s_buf x) <= bo_limit (c_opt c) ->
+                         bb_len (s_buf (fst (process_body c x))) <= bo_limit (c_opt c)).
+  { intros x Hx. destruct (process_keeps c x) as (-> & _). exact Hx. }
+  assert (HS : forall x, bb_len (s_buf x) <= bo_limit (c_opt c) ->
+                         bb_len (s_buf (fst (set_limit_intr c x))) <= bo_limit (c_opt c)).
+  { intros x Hx. unfold set_limit_intr. destruct (s_intr x); exact Hx. }
+  destruct k as [d|kn rs d| |z]; cbn [tb_step].
+  - unfold write_slice.
+    destruct (negb (c_engine_on c)); [exact H|]. destruct (negb (c_access c)); [exact H|].
+    destruct (s_limit s =? bb_len (s_buf s)); [destruct (c_action c); exact H|].
+    destruct (overflow_guard c s (blen d)); [exact H|].
+    set (reached := bb_len (s_buf s) + blen d >=? s_limit s).
+    set (s1 := if reached then set_dataerr s else s).
+    assert (H1 : bb_len (s_buf s1) <= bo_limit (c_opt c)) by (subst s1; destruct reached; exact H).
+    set (wb' := if reached then Z.max 0 (s_limit s - bb_len (s_buf s)) else blen d).
+    assert (Hcommon :
+      bb_len (s_buf (fst (if (wb' <? 0) || (wb' >? blen d) then (s1, ret_panic)
+        else let '(b', w, err) := bb_write (c_opt c) (s_buf s1) (firstn (Z.to_nat wb') d) in
+             if err then (s1, mk_ret None 0 true)
+             else let s2 := set_buf s1 b' in
+                  if reached then let '(s3, _) := process_body c s2 in (s3, mk_ret (s_intr s3) w false)
+                  else (s2, mk_ret (s_intr s2) w false)))) <= bo_limit (c_opt c)).
+    { destruct ((wb' <? 0) || (wb' >? blen d)); [exact H1|].
+      pose proof (bb_write_len_le (c_opt c) (s_buf s1) (firstn (Z.to_nat wb') d) H1) as Hw.
+      destruct (bb_write _ _ _) as [[b' w] err]. cbn [fst] in Hw. destruct err; [exact H1|].
+      cbv zeta. destruct reached; [|exact Hw].
+      pose proof (HP (set_buf s1 b') Hw) as Hq. destruct (process_body c (set_buf s1 b')). cbn [fst] in *. exact Hq. }
+    destruct reached; [destruct (c_action c); [apply HS; exact H1 | exact Hcommon] | destruct (c_action c); exact Hcommon].
+  - unfold read_from.
+    destruct (negb (c_engine_on c)); [exact H|]. destruct (negb (c_access c)); [exact H|].
+    destruct (s_limit s =? bb_len (s_buf s)); [destruct (c_action c); exact H|].
+    destruct (kn && overflow_guard c s (blen d)); [exact H|].
+    set (reached := kn && (bb_len (s_buf s) + blen d >=? s_limit s)).
+    set (s1 := if reached then set_dataerr s else s).
+    assert (H1 : bb_len (s_buf s1) <= bo_limit (c_opt c)) by (subst s1; destruct reached; exact H).
+    set (n := if kn && negb reached then blen d else s_limit s - bb_len (s_buf s)).
+    assert (Hcommon :
+      bb_len (s_buf (fst (
+        let '(b', w, err) := bb_copyN (c_opt c) (s_buf s1) d rs n in
+        let s2 := set_buf s1 b' in
+        if err then (s2, mk_ret None w true)
+        else
+          let full := bb_len b' =? s_limit s in
+          let s3 := if full then set_dataerr s2 else s2 in
+          match full, c_action c with
+          | true, Reject => set_limit_intr c s3
+          | _, _ =>
+            if reached || full then let '(s4, _) := process_body c s3 in (s4, mk_ret (s_intr s4) w false)
+            else (s3, mk_ret (s_intr s3) w false)
+          end))) <= bo_limit (c_opt c)).
+    { unfold bb_copyN.
+      pose proof (bb_copy_loop_len_le (c_opt c) rs (copy_bufsize n) (S (length d)) (s_buf s1) d n 0 H1) as Hw.
+      destruct (bb_copy_loop _ _ _ _ _ _ _ _) as [[b' w] err]. cbn [fst] in Hw. cbv zeta.
+      destruct err; [exact Hw|].
+      set (s3 := if bb_len b' =? s_limit s then set_dataerr (set_buf s1 b') else set_buf s1 b').
+      assert (H3 : bb_len (s_buf s3) <= bo_limit (c_opt c)) by (subst s3; destruct (bb_len b' =? s_limit s); exact Hw).
+      pose proof (HP s3 H3) as Hq. pose proof (HS s3 H3) as Hr.
+      destruct (bb_len b' =? s_limit s); destruct (c_action c); cbn [orb]; try exact Hr;
+        try (destruct (process_body c s3); cbn [fst] in *; exact Hq);
+        destruct reached; cbn [orb]; try (destruct (process_body c s3); cbn [fst] in *; exact Hq); exact H3. }
+    destruct reached; [destruct (c_action c); [apply HS; exact H1 | exact Hcommon] | destruct (c_action c); exact Hcommon].
+  - pose proof (HP s H) as Hq. destruct (process_body c s). cbn [fst] in *. exact Hq.
+  - exact H.
+Qed.
+
+Lemma run_len_le c ks : forall s,
+  bb_len (s_buf s) <= bo_limit (c_opt c) -> bb_len (s_buf (tb_final c s ks)) <= bo_limit (c_opt c).
+Proof.
+  induction ks as [|k ks IH]; intros s H; [exact H|]. rewrite tb_final_cons. apply IH. apply step_len_le. exact H.
+Qed.
+
+(* the response buffer is created with MemoryLimit = Limit (waf_buf_opts): it never spills, whatever the
+   calls, the ctl limit changes and the WAF's request in-memory limit are *)
+Theorem response_never_spills w c ph ks :
+  c_opt c = waf_buf_opts w Resp -> 0 <= w_resp_limit w ->
+  bb_spilled (s_buf (tb_final c (tb_init c ph) ks)) = false.
+Proof.
+  intros Ho Hl.
+  assert (Hm : 0 <= bo_mem (c_opt c)) by (rewrite Ho; cbn; exact Hl).
+  pose proof (spill_exact c ph ks Hm) as Hs. cbv zeta in Hs.
+  pose proof (run_len_le c ks (tb_init c ph)) as Hle.
+  assert (H0 : bb_len (s_buf (tb_init c ph)) <= bo_limit (c_opt c)) by (rewrite Ho; cbn; exact Hl).
+  specialize (Hle H0).
+  assert (Hi : bb_len (s_buf (tb_final c (tb_init c ph) ks)) = blen (stored (tb_final c (tb_init c ph) ks))).
+  { assert (Eq : st_equiv (c_opt c) (c_opt (with_mem c (bo_mem (c_opt c)))) (tb_init c ph) (tb_init c ph)).
+    { split; [|cbn; tauto]. cbn [tb_init s_buf]. repeat split; cbn; lia. }
+    pose proof (run_sim c (bo_mem (c_opt c)) ks _ _ Eq) as (((_ & _ & (I & _) & _) & _) & _). exact I. }
+  destruct (bb_spilled (s_buf (tb_final c (tb_init c ph) ks))) eqn:E; [|reflexivity].
+  exfalso. pose proof (proj1 Hs eq_refl) as E2. clear Hs E. rename E2 into E. rewrite Ho in *. cbn [waf_buf_opts bo_mem bo_limit] in *.
+  cbn [waf_buf_opts bo_limit] in *. lia.
+Qed.
+
+(* the response buffer's options do not depend on SecRequestBodyInMemoryLimit at all *)
+Theorem response_opts_ignore_request_inmem rl m1 m2 pl :
+  waf_buf_opts {| w_req_limit := rl; w_req_inmem := m1; w_resp_limit := pl |} Resp
+  = waf_buf_opts {| w_req_limit := rl; w_req_inmem := m2; w_resp_limit := pl |} Resp.
+Proof. reflexivity. Qed.
+
+(* a WAF that passes Validate gives the request buffer options satisfying wf_cfg's constraints *)
+Theorem request_opts_wf w c :
+  c_opt c = waf_buf_opts w Req ->
+  0 < w_req_limit w <= gib ->
+  match w_req_inmem w with Some m => 0 < m <= w_req_limit w | None => True end ->
+  wf_cfg c.
+Proof.
+  intros Ho Hl Hm. unfold wf_cfg. rewrite Ho. cbn [waf_buf_opts bo_mem bo_limit].
+  destruct (w_req_inmem w); lia.
+Qed.
